@@ -30,4 +30,5 @@ def check(tree, rep, tier='quick', seed=0):
     R.k11_input_gate(core, rep)
     R.k18_cli_store_identity(core, rep)
     R.k11g_parser_objects_untouched(core, rep)
+    R.k24_tracker_shape(core, rep, parts=('a',))   # every line that read the absent input is recorded as waiting for it: the prompt quotes them all, and each is re-attempted once answered (the prompted run computes what the re-run computes)
     rep.floor('core rule obligations', sum(v[0] for k, v in rep.rules.items() if k.startswith('K')), 60)
